@@ -220,7 +220,8 @@ def build_mock_cascade(ops):
         ps = NS(npu_block_type=bt, ofm_tensor=ofm_t, ops=[], primary_op=parent_op, ofm_shapes=[full],
                              ifm_shapes=[ifm_shape], name=f"ps{i}")
         so = NS(parent_ps=ps, parent_op=parent_op, ifm2=None, ofm=NS(shape=ofm_shape),
-                             kernel=NS(stride=NS(y=m.stride, x=m.stride)), op_type=optype,
+                             kernel=NS(stride=NS(y=(m.stride[0] if isinstance(m.stride, (tuple, list)) else m.stride),
+                                                 x=(m.stride[1] if isinstance(m.stride, (tuple, list)) else m.stride))), op_type=optype,
                              resampling_mode=rmode, reversed_operands=False, index=i)
         so.ifm = NS(shape=ifm_shape, connection=NS(producers=[prev] if prev is not None else []))
         so.ifm_read_shape = parent_op.read_shapes[0] if parent_op.read_shapes[0] is not None else ifm_shape
@@ -424,7 +425,7 @@ def rolling_defect(idx, metas):
 # ------------------------------------------------------------------------------------------------
 # extra network profiles for C10 (used through pipe_common with make_net / sample_config replaced)
 
-C10_PROFILES = ["c10_pad_tall", "c10_slice", "c10_upscale", "c10_dilated", "c10_pool_chain", "c10_slice_upscale", "c10_asym_dilation"]
+C10_PROFILES = ["c10_asym_stride", "c10_pad_tall", "c10_slice", "c10_upscale", "c10_dilated", "c10_pool_chain", "c10_slice_upscale", "c10_asym_dilation"]
 
 
 def source_conv_options(net):
@@ -469,6 +470,22 @@ def _make_net_c10(rng, idx, profile):
         cur = b.resize(cur, 4, "RESIZE_NEAREST_NEIGHBOR", False, False)
         cur = b.conv(cur, 16, (3, 3), (2, 2), (1, 1), "SAME")
         b.net.desc.append("conv3x3 -> RESIZE_NEAREST_NEIGHBOR x4 -> conv3x3/s2, IFM 1x4x4x16")
+        return b.finish([cur])
+    if profile == "c10_asym_stride":
+        # cascaded convolutions whose vertical stride differs from the horizontal one, followed by a stride-2 consumer so that the
+        # asymmetric operator runs with stripes of more than one row
+        b = netgen.B(rng, f"asyms{idx}", "int8")
+        h, w, c = rng.choice([37, 40, 48, 64, 72]), rng.choice([32, 48, 64]), rng.choice([8, 16])
+        x = b.input([1, h, w, c])
+        cur = b.conv(x, c, (3, 3), (1, 1), (1, 1), "SAME")
+        st = rng.choice([(3, 1), (2, 1), (3, 1), (1, 2), (1, 3), (3, 2), (2, 3)])
+        k = rng.choice([3, 3, 5, 2])
+        new = b.conv(cur, c, (k, k), st, (1, 1), rng.choice(["SAME", "SAME", "VALID"])) if rng.random() < 0.7 else \
+            b.dwconv(cur, (k, k), st, (1, 1), "SAME")
+        cur = new if new is not None else cur
+        new = b.conv(cur, c, (3, 3), (2, 2), (1, 1), "SAME")
+        cur = new if new is not None else cur
+        b.net.desc.append(f"asym_stride in={[1, h, w, c]} k={k} (stride_h, stride_w)={st}")
         return b.finish([cur])
     if profile == "c10_asym_dilation":
         # cascaded SAME convolutions / depthwise with dilation_h != dilation_w, stride 1, tall enough to be striped with --optimise Size
@@ -576,7 +593,7 @@ def sample_config_c10(rng, profile):
         return ["--accelerator-config", "ethos-u65-256", "--optimise", "Size"]
     if profile == "known_odd_upscale":
         return ["--accelerator-config", "ethos-u65-256", "--optimise", "Size", "--arena-cache-size", "65536"]
-    if profile == "c10_asym_dilation":
+    if profile in ("c10_asym_dilation", "c10_asym_stride"):
         return ["--accelerator-config", rng.choice(["ethos-u55-32", "ethos-u55-64", "ethos-u55-128", "ethos-u55-128"]), "--optimise", "Size"]
     if profile in C10_PROFILES:
         acc = rng.choice(["ethos-u55-32", "ethos-u55-64", "ethos-u55-128", "ethos-u55-128", "ethos-u55-256", "ethos-u65-256", "ethos-u65-512"])
